@@ -13,7 +13,8 @@ Lean driver (kind `lower_model`), which
   * checks that the stage-3 expression the theorems speak about has the same dimensions as einx's tree.
 
 Every description is traced under the base lengths and two further assignments with the same 1-pattern; the skeletons of
-the model's programs must agree (`lower_elementwise_size_generic` / `lower_reduce_size_generic`, Props/C17Lower.lean).
+the model's programs must agree, and the instance of `lower_elementwise_size_generic` / `lower_reduce_size_generic`
+(Props/C17LowerOps.lean) is recomputed by the driver (kind `lower_generic`) for the base assignment paired with each other one.
 
 A disagreement is a broken tie (`ctx.tie_broken`), not a violation by itself.
 """
@@ -50,6 +51,22 @@ EXTRA = [
 ]
 
 
+def canon_unnamed(ei, eo):
+    """einx names every unnamed axis `unnamed.<counter>` with a process-wide counter, so two traces of one description differ
+    in these names; rename them, consistently within one call, in order of first occurrence."""
+    ren = {}
+
+    def walk(j):
+        if isinstance(j, dict):
+            if j.get("k") == "axis" and isinstance(j.get("name"), str) and j["name"].startswith("unnamed"):
+                return dict(j, name=ren.setdefault(j["name"], f"unnamed.c{len(ren)}"))
+            return {k: walk(v) for k, v in j.items()}
+        if isinstance(j, list):
+            return [walk(v) for v in j]
+        return j
+    return walk(ei), walk(eo)
+
+
 def lower_tie(ctx, n, SizedCall, variants, prefix="lower"):
     drv = ctx.driver()
     # an own generator (seeded by VERIF_SEED): the call streams of the checks that run this tie stay what they were
@@ -73,6 +90,7 @@ def lower_tie(ctx, n, SizedCall, variants, prefix="lower"):
             continue
         assigns = [dict(sc.axes)] + [a for _, a in variants(sc, rng)[:2]]
         skels = []
+        solved = []
         counted = False
         for a in assigns:
             try:
@@ -120,11 +138,31 @@ def lower_tie(ctx, n, SizedCall, variants, prefix="lower"):
                 break
             ctx.count(f"{prefix}:{fam}:equal")
             skels.append(json.dumps(r["model"]["skeleton"]))
+            solved.append((ei, eo))
         else:
             done += 1
             ctx.count(f"{prefix}:{fam}:descriptions")
             ctx.extra["graphs_validated"] = ctx.extra.get("graphs_validated", 0) + len(assigns)
             if len(set(skels)) != 1:
                 ctx.tie_broken(f"model:{prefix}-skeleton", f"einx.{sc.op}({sc.desc!r}): the model's skeleton differs between assignments with the same 1-pattern")
+            # the instance of `lower_elementwise_size_generic` / `lower_reduce_size_generic` (Props/C17LowerOps.lean) for the base
+            # assignment paired with every other one: hypotheses (both in the domain, related by gsim) and conclusion recomputed
+            ei1, eo1 = canon_unnamed(*solved[0])
+            for ei2, eo2 in (canon_unnamed(*x) for x in solved[1:]):
+                g = drv.ask({"kind": "lower_generic", "family": fam, "op": sc.op, "exprs_in": ei1, "exprs_out": eo1,
+                             "exprs_in2": ei2, "exprs_out2": eo2})
+                if g.get("unsupported"):
+                    ctx.count(f"{prefix}:{fam}:size-generic-unsupported")
+                    continue
+                if not g["related"]:
+                    # the harness's re-assignment is supposed to keep the description and the 1-pattern
+                    ctx.tie_broken(f"correspondence:{prefix}-size-generic-hypothesis",
+                                   f"einx.{sc.op}({sc.desc!r}): einx's solved expressions of two assignments with the same 1-pattern are not related by gsim")
+                    continue
+                key = "in-domain" if g["domain"] else "outside-domain"
+                ctx.count(f"{prefix}:{fam}:size-generic-pairs-{key}" + ("" if g["both_lowered"] else "-not-both-lowered"))
+                if g["domain"] and not g["instance"]:
+                    ctx.tie_broken(f"model:{prefix}_{fam}_size_generic-instance",
+                                   f"einx.{sc.op}({sc.desc!r}): hypotheses of the size-genericity theorem hold but the skeletons differ")
     ctx.extra[f"{prefix}_descriptions"] = done
     return done
